@@ -450,6 +450,9 @@ func unparen(e ast.Expr) ast.Expr {
 }
 
 func (r *rewriter) post(c *astutil.Cursor) bool {
+	if st, ok := c.Node().(ast.Stmt); ok && *raceInstr {
+		r.raceInsert(c, st)
+	}
 	switch x := c.Node().(type) {
 	case *ast.ChanType:
 		c.Replace(&ast.StarExpr{X: &ast.IndexExpr{X: r.vs("Chan"), Index: x.Value}})
